@@ -2,6 +2,7 @@ from registry_common import COMMON_ASSUME
 
 ENTRY = dict(
         title="One device object per controller address, for every arrival timing",
+        prop_modules=["C10"],
         design_ref="DESIGN.md section 6 / C10",
         technique="Lean 4 interleaving machine for get_device_entry and its callers (consumers and user get() calls for any number of "
                   "addresses under the one lock, class loading that completes or raises), mutual-exclusion / one-entry-per-address "
@@ -34,10 +35,11 @@ ENTRY = dict(
             "every caller (consumer, user get()) obtains the same object at every time": "theorem (per_address_single_device, single_device, entry_is_stable, same_object_at_every_time)",
             "addresses sharing the lock do not interfere; no object serves two addresses": "theorem (addresses_do_not_interfere)",
             "set-up started once": "theorem (per_address_single_device: setupsFor = createdFor <= 1, = 1 once the address has an entry)",
-            "every frame is handled by that object": "theorem (per_address_single_device safety; always_handleable progress; final_ok: complete schedules leave no frame unhandled) + correspondence",
+            "every frame is handled by that object": "theorem (per_address_single_device safety; progress: always_handleable (possibility) AND inevitability: real_moves_bounded (every schedule of N callers has at most 3N state-changing moves) + handled_when_nothing_moves (when none of them can move every frame caller is handled or dropped: no deadlock); final_ok: complete schedules leave no frame unhandled) + correspondence",
             "class loading that raises (no device class): frame dropped, lock released, nothing published": "theorem (per_address_single_device, always_handleable) + correspondence (frames from ECONET 86)",
             "the model distinguishes locked from unlocked code": "theorem (unlocked_counterexample)",
-            "for the lifetime of the protocol object, across reconnects at any point of the timeline": "theorem (single_device_across_reconnects, reconnect_preserves_invariant; fresh_lock_counterexample) + correspondence (end of stream on the current reader, connection re-established from an on_connection_lost callback, at every position incl. while the import is held)",
+            "the theorems are about what the driver prints": "theorem (replay_snapshots_ok: every snapshot `Entry.replay` emits satisfies snapOk; replay_is_runEvs: while events are accepted the driver's list is the runEvs observations of the prefixes; replay_is_run)",
+            "for the lifetime of the protocol object, across reconnects at any point of the timeline": "CORRESPONDENCE ONLY for the fact that a reconnect touches neither the lock object, nor the device map, nor the callers in flight (the machine's reconnect event with the code's effect is the identity: `code_reconnect_effect`; `single_device_across_reconnects` / `reconnect_preserves_invariant` are modelling statements, not theorems about reconnects); theorem `reconnect_effects_matter` / `fresh_lock_counterexample`: a fresh lock per connection or a device map emptied on loss would each give two objects for one address. Correspondence: (end of stream on the current reader, connection re-established from an on_connection_lost callback, at every position incl. while the import is held)",
             "the machine describes protocol.py / asyncio.Lock is mutual exclusion": "correspondence (trace inclusion on enumerated schedules)",
         },
         assumptions=COMMON_ASSUME + [
